@@ -128,7 +128,7 @@ def check_query(case, nodes, labels, preorder_index, ic, start, pattern, unique,
     return nontrivial, bool(exp)
 
 
-SPECIAL_NAMES = ["\u00df", "stra\u00dfe", "STRASSE", "strasse", "\ufb01le", "FILE", "file", "\u0131", "I", "i", "\u0130", "\u212a", "k", "K", "\u017f", "s", "\u0149", "\u01f0x"]
+SPECIAL_NAMES = ["\u00df", "stra\u00dfe", "STRASSE", "strasse", "\ufb01le", "FILE", "file", "\u0131", "I", "i", "\u0130", "\u212a", "k", "K", "\u017f", "s", "\u0149", "\u01f0x", "\u0130zmir", "i\u0307zmir", "izmir", "IZMIR"]
 
 
 def check_special(case, acc):
@@ -421,6 +421,21 @@ def run_task(task, acc):
                 break
         return
     if task["engine"] == "special":
+        if task["seed"] % 4 == 0:
+            # systematically: every group of names that some case mapping (lower, upper, casefold) maps to the same text
+            groups = {}
+            for fold in (str.lower, str.upper, str.casefold):
+                for name in SPECIAL_NAMES:
+                    groups.setdefault((fold.__name__, fold(name)), []).append(name)
+            seen = set()
+            for names in groups.values():
+                if len(names) >= 2 and tuple(names) not in seen:
+                    seen.add(tuple(names))
+                    case = {"kind": "special", "names": names}
+                    exc = acc.evaluate(check_case, case, enumerated=False)
+                    if exc is not None:
+                        acc.add_violation(case, exc)
+                        return
         strat = st.lists(st.sampled_from(SPECIAL_NAMES), min_size=2, max_size=6, unique=True).map(lambda names: {"kind": "special", "names": names})
         return acc.run_hypothesis(check_case, strat, task["examples"], task["seed"])
     if task["engine"] == "enum":
